@@ -168,6 +168,26 @@ pub fn check_world(spec: &RichSpec, l: &mut Local) -> Result<(), String> {
                                     ));
                                 }
                             }
+                            // ... nor create a config-level settings object (token badge, fee tier, adaptive fee tier, config extension) under a
+                            // config of the victim: those are governed by config-level authorities, none of which the outsider holds
+                            for (k, a) in c.bank.accounts.iter() {
+                                if a.owner != WP || a.data.len() < 40 || w.bank.accounts.contains_key(k) {
+                                    continue;
+                                }
+                                use anchor_lang::Discriminator;
+                                let d8 = &a.data[..8];
+                                let config_level = d8 == whirlpool::state::TokenBadge::DISCRIMINATOR
+                                    || d8 == whirlpool::state::FeeTier::DISCRIMINATOR
+                                    || d8 == whirlpool::state::AdaptiveFeeTier::DISCRIMINATOR
+                                    || d8 == whirlpool::state::WhirlpoolsConfigExtension::DISCRIMINATOR;
+                                let cfg_key = Pubkey::new_from_array(a.data[8..40].try_into().unwrap());
+                                if config_level && w.configs.iter().any(|cf| cf.key == cfg_key) && !r.sibling.contains(&cfg_key) {
+                                    return Err(format!(
+                                        "{}: signed by an outsider who is the authority of a sibling object passed in account slot {j}, the call created the settings account {k} under the victim's config {cfg_key}",
+                                        ent.name
+                                    ));
+                                }
+                            }
                             l.count("sibling_mutant_succeeded_without_touching_the_victim");
                         }
                     }
